@@ -578,14 +578,17 @@ def oracle_html(op, viol):
     # literal, V = interpolated value; a value can never contribute '>' or '<': they are escaped)
     prov = []
     n_ = 0
-    for it in items:
+    for j, it in enumerate(items):
         if it[0] == "lit":
-            prov += [(c, "L") for c in it[1]]
+            prov += [(c, "L", j) for c in it[1]]
         else:
-            prov += [(c, "V") for c in py_format_value(used[n_], it[2], percent) if c not in "<>&"]
+            prov += [(c, "V", j) for c in py_format_value(used[n_], it[2], percent) if c not in "<>&"]
             n_ += 1
-    cr_lf = any(prov[i] == ("\r", "L") and prov[i + 1] == ("\n", "V") for i in range(len(prov) - 1))
-    rbr = any(prov[i][0] == "]" and prov[i + 1][0] == "]" and prov[i + 2] == (">", "L")
+    # a literal CR that ends a template part, directly followed by a LF from the value or (across
+    # an empty value) from the next template part
+    cr_lf = any(prov[i][:2] == ("\r", "L") and prov[i + 1][0] == "\n" and prov[i + 1][2] != prov[i][2]
+                for i in range(len(prov) - 1))
+    rbr = any(prov[i][0] == "]" and prov[i + 1][0] == "]" and prov[i + 2][:2] == (">", "L")
               for i in range(len(prov) - 2))
 
     def classify(default, raised=False):
